@@ -197,3 +197,54 @@ contract(FR, 'Frame.sort_values', key='Frame.sort_values[axis=1,key->ndarray]',
         'result == ufe("frame", ufe("take_rows", self._blocks, %s), ufe("take", self._index, %s), self._columns, self._name)'
         % (_FORD.format(p='cond(K.cols == 1, ufe("argsort_k", K.src, kind), ufe("lexperm_k", K.src))'), _FORD.format(p='cond(K.cols == 1, ufe("argsort_k", K.src, kind), ufe("lexperm_k", K.src))')),
     ])
+
+
+# the key-function path with a key that returns an index (flat or hierarchical, of ANY depth): the sort vectors are the per-depth arrays of the KEY's result, all of them,
+# innermost first (so that its depth 0 is the primary key) -- the depth of the index being sorted plays no part
+RECORDS['SortKeyFn'] = dict(fid='elem')
+RECORDS['SortIndexL'] = dict(depth='int', _len='int', values='elem', oid='elem')
+_KO = 'ufe("key_result", key.fid, index.oid)'
+_KD = 'ufi("key_result_depth", key.fid, index.oid)'
+contract(CU, 'sort_index_for_order', key='sort_index_for_order[key->index]',
+    props=['C12'],
+    params=dict(index='SortIndexL', ascending='bool', kind='elem', key='SortKeyFn'), order=['index', 'ascending', 'kind', 'key'],
+    result='elem',
+    requires=['index.depth >= 1 and index._len >= 0'],
+    calls={
+        # the key function returns an index-like container (not an ndarray) of some depth >= 1 with one row per label
+        'key': dict(params=dict(i='SortIndexL'), order=['i'], result='SortIndexL',
+                    ensures=[f'result.oid == {_KO} and result.depth == {_KD} and result.depth >= 1 and result._len >= 0'.replace('index.oid', 'i.oid')]),
+        'np.lexsort': dict(params=dict(keys='list[elem]'), order=['keys'], result='elem',
+                           requires=['len(keys) == cfs.depth', 'forall_in(0, len(keys), lambda j: at(keys, j) == ufe("vad", cfs.oid, cfs.depth - 1 - j))'],
+                           ensures=['result == ufe("lexperm", cfs.oid)']),
+        'cfs.values_at_depth': dict(params=dict(d='int'), order=['d'], result='elem', result_expr='ufe("vad", cfs.oid, d)'),
+        'np.argsort': dict(params=dict(a='elem'), order=['a', 'axis', 'kind'], defaults=dict(axis='-1', kind='"quicksort"'), result='elem',
+                           ensures=['result == ufe("argsort", a, kind)']),
+        'order.__getitem__': dict(params=dict(key='slice'), order=['key'], result='elem',
+                                  requires=['is_none(key.start) and is_none(key.stop) and key.step == -1'],
+                                  ensures=['result == ufe("rev", order)']),
+    },
+    raises={'RuntimeError': 'maybe'},
+    concrete_inputs='specs.t2_sort:concrete_inputs_key', witness_on_unknown=True, witness_always=True, requires_concrete=[],
+    ensures_concrete=['ref_sort_order_by_key(index, ascending, key, result)'],
+    ensures=[
+        f'implies({_KD} > 1 and ascending, result == ufe("lexperm", {_KO}))',
+        f'implies({_KD} > 1 and not ascending, result == ufe("rev", ufe("lexperm", {_KO})))',
+    ])
+
+
+def concrete_inputs_key(model):
+    """key functions returning a hierarchy as deep as, and deeper than, the index being sorted; the key rows are in tree form (a valid hierarchy) but tie on the
+    outer depths and are out of order on the inner ones"""
+    import static_frame as sf
+    flat = sf.Index(('Az', 'ax', 'Ay', 'By', 'bx'))
+    k2 = lambda ix: sf.IndexHierarchy.from_labels([(l[0].lower(), l[1]) for l in ix.values])
+    k3 = lambda ix: sf.IndexHierarchy.from_labels([(l[0].lower(), 'm', l[1]) for l in ix.values])
+    h2 = sf.IndexHierarchy.from_labels([('a', 2), ('a', 1), ('b', 2), ('b', 1)])
+    k_same = lambda ix: sf.IndexHierarchy.from_labels([(a, -b) for a, b in ix.values.tolist()])
+    k_deeper = lambda ix: sf.IndexHierarchy.from_labels([(a, 0, b) for a, b in ix.values.tolist()])
+    out = []
+    for asc in (True, False):
+        for ix, kf in ((flat, k2), (flat, k3), (h2, k_same), (h2, k_deeper)):
+            out.append(dict(index=ix, ascending=asc, kind='mergesort', key=kf))
+    return out
